@@ -404,9 +404,9 @@ func c19Cleanup(r *ev.Run) {
 	}
 	settle := func(base int) (int, bool) {
 		// an eventual condition: wait (up to 30 s) for the goroutine count to come back
-		deadline := time.Now().Add(30 * time.Second)
+		// (counted in sleeps, not by the clock: a stopped machine or a stepping clock must not use the time up)
 		n := runtime.NumGoroutine()
-		for n > base && time.Now().Before(deadline) {
+		for i := 0; n > base && i < 15000; i++ {
 			time.Sleep(2 * time.Millisecond)
 			n = runtime.NumGoroutine()
 		}
